@@ -634,7 +634,27 @@ func (si *stackIterator) ProgramCounter() experimental.ProgramCounter {
 
 // Function implements the same method as documented on experimental.StackIterator.
 func (si *stackIterator) Function() experimental.InternalFunction {
-	return si
+	// Not the iterator itself: the returned function must keep describing this frame after the next call
+	// of Next (experimental.MultiFunctionListenerFactory collects the functions of all the frames first).
+	return internalFunction{def: si.currentDef, eng: si.eng}
+}
+
+// internalFunction implements experimental.InternalFunction for one frame of a stackIterator.
+type internalFunction struct {
+	def api.FunctionDefinition
+	eng *engine
+}
+
+// Definition implements the same method as documented on experimental.InternalFunction.
+func (f internalFunction) Definition() api.FunctionDefinition {
+	return f.def
+}
+
+// SourceOffsetForPC implements the same method as documented on experimental.InternalFunction.
+func (f internalFunction) SourceOffsetForPC(pc experimental.ProgramCounter) uint64 {
+	upc := uintptr(pc)
+	cm := f.eng.compiledModuleOfAddr(upc)
+	return cm.getSourceOffset(upc)
 }
 
 // Definition implements the same method as documented on experimental.InternalFunction.
